@@ -3,7 +3,14 @@ package main
 // splitmix64: the single source of randomness.
 var rngState uint64
 
-func rngInit(s uint64) { rngState = s*0x9E3779B97F4A7C15 + 0x1234567 }
+// rngInit: the state is a HASH of the seed. (It used to be seed*gamma+c with the same gamma the generator adds per
+// draw, which made the streams of seeds s and s+1 the same stream shifted by one position.)
+func rngInit(s uint64) {
+	z := s + 0x9E3779B97F4A7C15
+	z = (z ^ (z >> 33)) * 0xFF51AFD7ED558CCD
+	z = (z ^ (z >> 33)) * 0xC4CEB9FE1A85EC53
+	rngState = z ^ (z >> 33) ^ 0xD6E8FEB86659FD93
+}
 
 func rnd() uint64 {
 	rngState += 0x9E3779B97F4A7C15
